@@ -20,6 +20,9 @@ func (ex *Exec) execFunc(fn *ssa.Function, args, bindings []Value, st *State, pa
 	if parent != nil {
 		fr.outerN = ex.pendingN
 		ex.pendingN = nil
+		fr.parent = parent
+		fr.site = ex.pendingSite
+		ex.pendingSite = nil
 		fr.depth = parent.depth + 1
 		fr.ghostPar = parent.ghostPar
 		fr.callStack = append(append([]string(nil), parent.callStack...), fnKeyOf(fn))
